@@ -234,6 +234,9 @@ def cases(tier):
             for slot in SLOTS:
                 if tier != "thorough" and cname != "I0" and slot[0] not in QUICK_VIA_SLOTS:
                     continue      # quick: the other 7 slots go through the same parseIndirect/resolvePath; all 17 slots at I0
+                if tier != "thorough" and ((cname == "I4" and placement in ("top", "nested")) or
+                                           (cname == "I1" and placement == "aux")):
+                    continue      # quick: these placements see no via of that configuration (identical to I0)
                 for form in FORMS:
                     flags = form[3]
                     if slot[3] == "per" and "p" not in flags:
